@@ -163,7 +163,7 @@ impl World {
         self.accounts.insert(key, Acct { lamports, data, owner, executable: false });
     }
 
-    fn put_zc<T: Pod + Discriminator>(&mut self, key: Pubkey, v: &T) {
+    pub fn put_zc<T: Pod + Discriminator>(&mut self, key: Pubkey, v: &T) {
         self.put(key, marginfi::ID, zc_bytes(v));
     }
 
@@ -583,6 +583,23 @@ impl World {
         a.initialize(group, authority, self.clock_ts as u64);
         self.put_zc(key, &a);
         key
+    }
+
+    /// Schedule a transfer-fee change on a Token-2022 fee mint like `SetTransferFee` does: the fee in force stays in
+    /// `older_transfer_fee`, the new one goes to `newer_transfer_fee` with an activation epoch in the future (the world's
+    /// clock epoch is 0), so the OLD fee keeps being charged.
+    pub fn schedule_fee_change(&mut self, mint: &Pubkey, newer_bps: u16, newer_max_fee: u64, activation_epoch: u64) {
+        let mut acct = self.get(mint).expect("mint").clone();
+        {
+            let mut st = StateWithExtensionsMut::<spl_token_2022::state::Mint>::unpack(&mut acct.data).unwrap();
+            let cfg = st.get_extension_mut::<TransferFeeConfig>().unwrap();
+            cfg.newer_transfer_fee = TransferFee {
+                epoch: activation_epoch.into(),
+                maximum_fee: newer_max_fee.into(),
+                transfer_fee_basis_points: newer_bps.into(),
+            };
+        }
+        self.accounts.insert(*mint, acct);
     }
 
     /// The liquidation-record PDA of `marginfi_account`, initialised like
